@@ -2,7 +2,7 @@
 From Coq Require Import List NArith ZArith Bool.
 From GoPdf.Base Require Import Bytes Res.
 From GoPdf.Gen Require Import Gen_Consts Gen_C02.
-From GoPdf.C02 Require Import Obj Dec Syntax Writer Stored Reader Expect Inst WriterProofs LayoutProofs ReaderProofs MoreProofs OpenProofs ChainProofs ObjStmProofs MemberRead FullProofs Alias AliasProofs Samples.
+From GoPdf.C02 Require Import Obj Dec Syntax Writer Stored Reader Expect Inst WriterProofs LayoutProofs ReaderProofs MoreProofs OpenProofs ChainProofs ObjStmProofs MemberRead FullProofs Alias AliasProofs Samples LenientProofs CapsProofs.
 Import ListNotations.
 Open Scope N_scope.
 
@@ -308,6 +308,96 @@ Proof.
   - intros f fs' o -> H. exact (proj1 (stream_dict_repr_declared n g d f fs' o H)).
 Qed.
 Print Assumptions stream_dict_filters_aligned.
+
+(* ================= calls that are refused =================
+   A call of Put, WriteCompressed or OpenStream that returns an error has either been refused before it
+   touched anything (the writer is as it was), or it has failed after part of an object was
+   registered or written: the writer keeps that error, and Put, OpenStream, WriteCompressed and Close
+   return it from then on.  [run_lenient] runs a history through both kinds of refusal, [dirty st o]
+   says of which kind the refusal of [o] in [st] is, [kept] are the calls that were accepted. *)
+
+(* the refused calls contribute nothing: a lenient run that is not cut short is the plain run of the
+   accepted calls - so pos_inv, layout, write_read, ... hold of its file *)
+Theorem lenient_run_is_run_of_accepted :
+  forall fmt fmt_sd encS encB fenc deflate (c : cfg) ops st i rf fl st' rf' fl',
+    run_lenient fmt fmt_sd encS encB fenc deflate c st ops i rf fl = (st', rf', fl', None) ->
+    run_from fmt fmt_sd encS encB fenc deflate c st (kept fmt fmt_sd encS encB fenc deflate c st ops fl) = Ok st'.
+Proof. exact lenient_is_run_of_kept. Qed.
+Print Assumptions lenient_run_is_run_of_accepted.
+
+(* once the writer has failed it stays failed, and neither the file nor the table, the record of
+   what was written, an open stream, or the closed flag change any more (only Alloc still works) *)
+Theorem failed_is_absorbing :
+  forall fmt fmt_sd encS encB fenc deflate (c : cfg) ops st i rf st' rf' fl' stop,
+    run_lenient fmt fmt_sd encS encB fenc deflate c st ops i rf true = (st', rf', fl', stop) ->
+    fl' = true /\ same_file st st'.
+Proof. exact failed_absorbing. Qed.
+Print Assumptions failed_is_absorbing.
+
+(* a history that ends with a closed file has never failed: with lenient_run_is_run_of_accepted, the
+   bytes of every file that Close reports as written are those of the accepted calls alone *)
+Theorem close_ok_valid :
+  forall fmt fmt_sd encS encB fenc deflate (c : cfg) ops st0 st rf fl,
+    init c = Ok st0 ->
+    run_lenient fmt fmt_sd encS encB fenc deflate c st0 ops 0 [] false = (st, rf, fl, None) ->
+    closed st = true ->
+    fl = false /\
+    run fmt fmt_sd encS encB fenc deflate c (kept fmt fmt_sd encS encB fenc deflate c st0 ops false) = Ok st.
+Proof.
+  intros fmt fmt_sd encS encB fenc deflate c ops st0 st rf fl Hi H Hc. split.
+  - eapply close_ok_not_failed; [|exact H | exact Hc].
+    unfold init in Hi. destruct (negb _); [discriminate|]. destruct (_ && _); [discriminate|].
+    destruct (_ && _); [discriminate|]. injection Hi as <-. reflexivity.
+  - unfold run. rewrite Hi. cbn [bind]. eapply lenient_is_run_of_kept; exact H.
+Qed.
+Print Assumptions close_ok_valid.
+
+(* refusals that are decided before anything is touched (the writer is not failed by them): the
+   writer is closed; a stream is open; the arguments of WriteCompressed are refused by checkCompressed;
+   every refusal of OpenStream (chain length, /Length that is no integer, number in use); a Put
+   under a number that is in use *)
+Theorem refused_unchanged :
+  forall fmt fmt_sd encS encB fenc deflate (c : cfg) st,
+    (forall o, closed st = true -> dirty fmt fmt_sd encS encB fenc deflate c st o = false) /\
+    (forall s o, strm st = Some s -> dirty fmt fmt_sd encS encB fenc deflate c st o = false) /\
+    (forall rs os bigs, check_compressed rs os = false ->
+       dirty fmt fmt_sd encS encB fenc deflate c st (WriteCompressed rs os bigs) = false) /\
+    (forall n g d fs, dirty fmt fmt_sd encS encB fenc deflate c st (OpenStream n g d fs) = false) /\
+    (forall n g o big e, xlookup n (xref st) = Some e ->
+       dirty fmt fmt_sd encS encB fenc deflate c st (Put n g o big) = false).
+Proof.
+  intros fmt fmt_sd encS encB fenc deflate c st. repeat split.
+  - intros o Hc. apply dirty_closed, Hc.
+  - intros s o Hs. eapply stream_open_clean, Hs.
+  - intros rs os bigs H. apply check_compressed_clean, H.
+  - intros n g d fs. apply open_stream_never_dirty.
+  - intros n g o big e H. destruct o; [eapply duplicate_put_clean | eapply duplicate_stream_put_clean]; exact H.
+Qed.
+Print Assumptions refused_unchanged.
+
+(* what the writer accepts is within the limits of the reader (strings below maxStringBytes, names
+   below maxNameBytes, arrays up to maxArrayLen elements, dictionaries up to maxDictLen entries,
+   nesting below maxScannerNestDepth, reals that are numbers, references below maxXRefSize): every
+   object and every stream dictionary of an accepted history satisfies [caps_ok], in the form it was
+   written or (members of object streams, catalog, info) as given *)
+Theorem accepted_within_reader_caps :
+  forall fmt fmt_sd encS encB fenc deflate (c : cfg) ops st,
+    run fmt fmt_sd encS encB fenc deflate c ops = Ok st ->
+    forall e, In e (wr st) -> caps_record encS c e.
+Proof. exact accepted_within_caps. Qed.
+Print Assumptions accepted_within_reader_caps.
+
+(* the same limits on the reader's side: for a parser that refuses what is beyond them, as the
+   scanner does ([cap_parse p], any p), the syntax hypothesis of the write_read theorems - the parser
+   reads back the formatter's text of every well-formed value - is satisfiable only if well-formed
+   implies within the limits *)
+Theorem reader_caps_force_writer_caps :
+  forall (p : bytes -> option (obj * bytes)) (fmt : obj -> bytes) (wfo : obj -> Prop),
+    (forall o rest, wfo o ->
+       cap_parse p (LF :: fmt o ++ LF :: kw_endobj ++ rest) = Some (norm o, LF :: kw_endobj ++ rest)) ->
+    forall o, wfo o -> caps_ok 0 (norm o) = true.
+Proof. exact capped_parser_forces_caps. Qed.
+Print Assumptions reader_caps_force_writer_caps.
 
 (* a value may be Put under two numbers: both read back equal *)
 Theorem same_value_two_numbers :
